@@ -127,7 +127,8 @@ func cmdC16(args []string) error {
 		// longer or shorter than signed. (The small configurations bound to Validator.tla keep the model's kinds.)
 		dmg := []string{"bad", "missing"}
 		if !*small {
-			dmg = []string{"bad", "missing", "bad", "missing", "linked", "endless", "dir", "longer", "shorter"}
+			// ("wide": at least 64 contiguous damaged blocks in a file of unchanged size - the wound aggregator's limit)
+			dmg = []string{"bad", "missing", "bad", "missing", "linked", "endless", "dir", "longer", "shorter", "wide"}
 		}
 		for i := 0; i < run.NFiles; i++ {
 			kind := "ok"
@@ -218,10 +219,19 @@ func cmdC16(args []string) error {
 			return err
 		}
 		signed := newTree()
+		nwide := 0
 		for i := 0; i < run.NFiles; i++ {
 			sz := 40 + rng.Intn(60)
 			if run.NFiles < 20 && rng.Intn(3) == 0 {
 				sz = BS + rng.Intn(2*BS)
+			}
+			if run.Kinds[i] == "wide" {
+				if nwide < 2 {
+					sz = (64+rng.Intn(12))*BS + []int{0, 1, 1234}[rng.Intn(3)]
+					nwide++
+				} else {
+					run.Kinds[i] = "bad"
+				}
 			}
 			signed.Files[fmt.Sprintf("files/f%05d", i)] = randBytes(rng, sz)
 		}
@@ -253,6 +263,16 @@ func cmdC16(args []string) error {
 				os.WriteFile(p, b, 0644)
 			case "missing":
 				os.Remove(p)
+			case "wide":
+				b, _ := os.ReadFile(p)
+				from := 0
+				if len(b) > 66*BS {
+					from = BS * rng.Intn(len(b)/BS-65)
+				}
+				for j := from; j < len(b) && j < from+65*BS; j++ {
+					b[j] ^= 0xa5
+				}
+				os.WriteFile(p, b, 0644)
 			case "linked":
 				b, _ := os.ReadFile(p)
 				side := filepath.Join(root, fmt.Sprintf("side-%d", i))
